@@ -36,7 +36,7 @@ struct H : drv::Harness
 			else if (w < 70) p.ops.push_back(Op("ptest"));
 			else if (w < 72) p.ops.push_back(Op("pbad"));
 			else if (w < 76) p.ops.push_back(Op("phb"));
-			else if (w < 84) p.ops.push_back(Op("prr", { rng.range(0, 100), rng.range(0, 100), rng.chance(0.4) }));   // positions (percent) in the sent range, E=0 flag
+			else if (w < 84) p.ops.push_back(Op("prr", { rng.range(0, 100), rng.range(0, 100), rng.chance(0.4), 0, rng.chance(0.2) }));   // positions (percent) in the sent range, E=0 flag, (unused), the request's own number one too high
 			else if (w < 93) p.ops.push_back(Op("silence", { rng.chance(0.5) ? rng.range(100, 1500) : rng.range(1500, 7000) }));
 			else p.ops.push_back(Op("restart"));
 		}
@@ -152,6 +152,7 @@ struct H : drv::Harness
 			else if (op.k == "prr")
 			{
 				long hi = std::max<long>(max_sent, 1); long b = 1 + op.arg(0) * (hi - 1) / 100, e = 1 + op.arg(1) * (hi - 1) / 100; if (e < b) std::swap(b, e); if (op.arg(2)) e = 0;
+				if (op.arg(4)) { ++w.peer.out_seq; sim::count("op_resend_request_out_of_sequence"); }      // as if the peer's previous message had been lost
 				w.peer.send_msg("2", { {7, std::to_string(b)}, {16, std::to_string(e)} }); sim::count("op_resend_request");
 			}
 			else if (op.k == "silence") sim::advance(op.arg(0) * 1000000ll);
